@@ -57,7 +57,7 @@ func TestUnsupported(t *testing.T) {
 		"blocking select": "package lib\nfunc F(c chan int) { select { case <-c: } }\n",
 		"time.Sleep":      "package lib\nimport \"time\"\nfunc F() { time.Sleep(1) }\n",
 
-		"sync.Cond":       "package lib\nimport \"sync\"\nvar c = sync.NewCond(&sync.Mutex{})\nfunc F() { c.Wait() }\n",
+		"time.NewTimer":   "package lib\nimport \"time\"\nfunc F() { time.NewTimer(1) }\n",
 	}
 	for name, src := range cases {
 		tmp := t.TempDir()
